@@ -192,8 +192,9 @@ def Server.run {P M : Type} [DecidableEq M] (env : Env P M) : Server M → List 
 /-! ### the Tak instance: the existing models plugged in -/
 
 /-- `MakeEvaluator(size, nil)(&m.c, p)`.  `evaluate` can only fail where the Go code would panic (an index into the
-weight vector or `p.Stacks`); `C18.eval_total` proves that this does not happen on well-formed positions
-(`serve_eval_total` in `Props/C05_serve.lean` restates it for this function), so the `0` is never produced there. -/
+weight vector or `p.Stacks`); `C18.eval_total` proves that this does not happen on well-formed positions (`RoadWF`,
+which `ParseTPS`/`FromSquares` establish and `Move` keeps: C02/C01), so the `0` is never produced there; the
+correspondence compares the values of depth-1 responses exactly. -/
 def takEval (p : Pos) : Int :=
   match evaluateDefault p.c p with
   | .ok v => v
